@@ -1509,6 +1509,20 @@ func (c *Ctx) RuleTableConst(rule string, g *ssa.Global) {
 	bad := false
 	for _, fn := range SortedFuncs(c.AllRepoFuncs()) {
 		if fn.Name() == "init" && fn.Pkg == g.Pkg {
+			// the initialiser fills the table; it may not give it a second name (`var unitAliases = unitToValues`:
+			// whoever writes through the other variable writes the table)
+			for _, b := range fn.Blocks {
+				for _, in := range b.Instrs {
+					st, ok := in.(*ssa.Store)
+					if !ok || globalLoad(st.Val) != g {
+						continue
+					}
+					if other, isG := st.Addr.(*ssa.Global); isG && other != g {
+						c.addc("undecided", rule, fn, st.Pos(), "reference "+g.Name(), "the table "+g.Name()+" (a reference) is also stored in the package variable "+other.Name()+": who writes through that name is not followed", "")
+						bad = true
+					}
+				}
+			}
 			continue
 		}
 		for _, b := range fn.Blocks {
